@@ -1,6 +1,7 @@
 package props
 
 import (
+	"bytes"
 	"encoding/json"
 	"errors"
 	"fmt"
@@ -346,6 +347,7 @@ func c19Apply(r *mon.Run, cs c19Case) bool {
 	}
 	m := c19New(cs.Container)
 	d := newRefDict()
+	var keptJSON, keptCopy []byte
 	ok := true
 	fail := func(step int, clause, what string) {
 		ok = false
@@ -427,6 +429,18 @@ func c19Apply(r *mon.Run, cs c19Case) bool {
 			clause := what[:strings.Index(what, ":")]
 			fail(i, clause, what)
 			return false
+		}
+		// the JSON handed out after the previous operation is the caller's: marshalling again (this container, and a
+		// second container of the same kind) must not change it
+		if keptJSON != nil && !bytes.Equal(keptJSON, keptCopy) {
+			fail(i, "json-kept", fmt.Sprintf("json-kept: the bytes MarshalJSON returned earlier (%s) read %s after later MarshalJSON calls", mon.Trunc(string(keptCopy), 80), mon.Trunc(string(keptJSON), 80)))
+			return false
+		}
+		if b, err := m.JSON(); err == nil {
+			keptJSON, keptCopy = b, bytes.Clone(b)
+			other := c19New(cs.Container)
+			other.Set(0, 12345)
+			_, _ = other.JSON()
 		}
 	}
 	return ok
@@ -751,7 +765,7 @@ func init() {
 				c19ApplySet(r, ss)
 			}
 		},
-		Rule:               "every sequence of <= L operations (L=4 quick, 5 thorough) over an alphabet of 21 operations {set/delete of 3 keys (one holds a control character), update, set-existing, 5 filter predicates, map, map with a callback that fails at its 1st / 2nd visit and hands back a value with the error, 2 find predicates, delete of a never-set key} is applied to a fresh RuleASTNodes, ASTNodes and Constraints container and to a reference insertion-ordered dict; Len/Has/Get/GetValue/Each/EachSafe/MarshalJSON are compared after every operation; plus random sequences of <= 40 operations over 7 keys (some need JSON escaping), sequences of 200-900 operations over 308 keys on the two string-keyed containers (sizes crossing 8..256 entries), and all StringSet constructor/Add lists of length <= 3 over 3 names. distinct_nontrivial = distinct operation sequences (hashed text), every one of which mutates or queries the container at least once.",
+		Rule:               "every sequence of <= L operations (L=4 quick, 5 thorough) over an alphabet of 21 operations {set/delete of 3 keys (one holds a control character), update, set-existing, 5 filter predicates, map, map with a callback that fails at its 1st / 2nd visit and hands back a value with the error, 2 find predicates, delete of a never-set key} is applied to a fresh RuleASTNodes, ASTNodes and Constraints container and to a reference insertion-ordered dict; Len/Has/Get/GetValue/Each/EachSafe/MarshalJSON are compared after every operation, and the bytes MarshalJSON returned are kept and must still read the same after the next operation's MarshalJSON calls (on this and on another container of the kind); plus random sequences of <= 40 operations over 7 keys (some need JSON escaping), sequences of 200-900 operations over 308 keys on the two string-keyed containers (sizes crossing 8..256 entries), and all StringSet constructor/Add lists of length <= 3 over 3 names. distinct_nontrivial = distinct operation sequences (hashed text), every one of which mutates or queries the container at least once.",
 		MinNontrivialQuick: 10000, MinNontrivialThorough: 100000,
 		Assumptions: []string{"reference model: 40-line insertion-ordered dict in harness/internal/props/c19.go", "encoding/json decides JSON validity and key order of MarshalJSON output",
 			"Constraints.MarshalJSON: the spelling of keys is not judged (documentation silent), only validity, entry count, uniqueness"},
